@@ -60,9 +60,9 @@ def find_impl(toks, header):
             if b < len(s) and ''.join(acc) == want:
                 ob = s[b]
                 hits.append((ob, match_close(toks, ob)))
-    if len(hits) != 1:
-        raise LostAnchor('impl header %r found %d times' % (header, len(hits)))
-    return hits[0]
+    if not hits:
+        raise LostAnchor('impl header %r not found' % (header,))
+    return hits
 
 
 def find_fn(toks, name, lo=0, hi=None):
